@@ -1,4 +1,183 @@
-(* C08 — statements are being added; see DESIGN.md section 7. *)
-From XSG.Model Require Import Strings.
-Example C08_placeholder : True. Proof. exact I. Qed.
-Print Assumptions C08_placeholder.
+(* C08 — Errors are reported faithfully and only when the input is at fault.
+   The input of the model is the event stream the reader delivers; error payloads are the
+   opaque identifiers supplied with the events.  The content of the property is that the
+   nested, recursive consumer (build_struct under into_struct_ev / extend_struct_ev / run_evs)
+   gives the verdict of a flat left-to-right scan of that stream:
+     first_fault evs   the fault of the first faulty event (element name not UTF-8, then its
+                       attributes in order: malformed / duplicated attribute or key not UTF-8;
+                       text / CDATA not UTF-8; reader error with its position), None if none;
+     has_element evs   some Start / Empty event occurs.
+   Comments, PIs, the declaration and DOCTYPE (EMisc), end tags and attribute values are not faults.
+   Side condition `no_stray_end 0 evs = true`: no end tag at depth 0 before the first fault.  Every
+   stream of a default-configured reader satisfies it (an unmatched end tag is delivered as an
+   error, i.e. as an EErr event); without it the statements are false (ex_stray_end_needed in
+   Proofs/ParserFaults.v).  The C08_scan_* statements need no hypothesis at all: they give the
+   verdict for EVERY stream in terms of the depth-aware scanner `scan`.
+   Only statements; every proof is `exact <lemma of Proofs/ParserFaults.v>`. *)
+From XSG.Model Require Import Strings Necessity Element Parser.
+From XSG.Proofs Require Import ElementProofs ParserFaults.
+From Coq Require Import String.
+
+(* ---------- initial parse ---------- *)
+Theorem C08_parse_fault : forall evs x,
+  no_stray_end 0 evs = true -> first_fault evs = Some x -> into_struct_ev evs = Err x.
+Proof. exact parse_fault. Qed.
+
+Theorem C08_parse_ok : forall evs,
+  no_stray_end 0 evs = true -> first_fault evs = None -> has_element evs = true ->
+  exists e, into_struct_ev evs = Ok e.
+Proof. exact parse_ok. Qed.
+
+Theorem C08_parse_no_root : forall evs,
+  first_fault evs = None -> has_element evs = false -> into_struct_ev evs = Err NoRootError.
+Proof. exact parse_no_root. Qed.
+
+(* "an error exactly when ..." *)
+Theorem C08_parse_err_iff : forall evs x,
+  no_stray_end 0 evs = true ->
+  (into_struct_ev evs = Err x <->
+   first_fault evs = Some x
+   \/ (first_fault evs = None /\ has_element evs = false /\ x = NoRootError)).
+Proof. exact parse_err_iff. Qed.
+
+(* ---------- extending ---------- *)
+Theorem C08_extend_fault : forall root evs x,
+  no_stray_end 0 evs = true -> first_fault evs = Some x -> extend_struct_ev root evs = Err x.
+Proof. exact extend_fault. Qed.
+
+Theorem C08_extend_ok : forall root evs,
+  first_fault evs = None -> exists e, extend_struct_ev root evs = Ok e.
+Proof. exact extend_ok. Qed.
+
+Theorem C08_extend_err_iff : forall root evs x,
+  no_stray_end 0 evs = true -> (extend_struct_ev root evs = Err x <-> first_fault evs = Some x).
+Proof. exact extend_err_iff. Qed.
+
+(* ---------- syntax errors carry the reader's error and position ---------- *)
+Theorem C08_position : forall evs p id,
+  no_stray_end 0 evs = true -> first_fault evs = Some (QuickXmlError p id) ->
+  into_struct_ev evs = Err (QuickXmlError p id)
+  /\ exists pre post, evs = pre ++ EErr p id :: post /\ first_fault pre = None.
+Proof. exact parse_position. Qed.
+
+Theorem C08_extend_position : forall root evs p id,
+  no_stray_end 0 evs = true -> first_fault evs = Some (QuickXmlError p id) ->
+  extend_struct_ev root evs = Err (QuickXmlError p id)
+  /\ exists pre post, evs = pre ++ EErr p id :: post /\ first_fault pre = None.
+Proof. exact extend_position. Qed.
+
+Theorem C08_quick_origin : forall evs p id,
+  into_struct_ev evs = Err (QuickXmlError p id) ->
+  exists pre post, evs = pre ++ EErr p id :: post /\ first_fault pre = None.
+Proof. exact parse_quick_origin. Qed.
+
+(* ---------- a whole run parse(D1), extend(D2), ...: the first document at fault decides ---------- *)
+Theorem C08_run : forall docs,
+  docs <> [] -> Forall (fun d => no_stray_end 0 d = true) docs ->
+  match expected_verdict true docs with
+  | Some x => run_evs docs = Err x
+  | None => exists e, run_evs docs = Ok e
+  end.
+Proof. exact run_verdict. Qed.
+
+(* ---------- every stream, no hypothesis: the consumer is the depth-aware scanner ---------- *)
+Theorem C08_scan_build : forall fuel evs root known,
+  (List.length evs < fuel)%nat ->
+  match scan 0 evs with
+  | SFault x => build_struct fuel evs root known = Err x
+  | SReturn rest => exists e, build_struct fuel evs root known = Ok (e, rest)
+  | SEof => exists e, build_struct fuel evs root known = Ok (e, [])
+  end.
+Proof. exact build_scan. Qed.
+
+Theorem C08_scan_parse_iff : forall evs x,
+  into_struct_ev evs = Err x <->
+  scan 0 evs = SFault x
+  \/ ((forall y, scan 0 evs <> SFault y) /\ elem_first evs = false /\ x = NoRootError).
+Proof. exact parse_scan_iff. Qed.
+
+Theorem C08_scan_extend_iff : forall root evs x,
+  extend_struct_ev root evs = Err x <-> scan 0 evs = SFault x.
+Proof. exact extend_scan_iff. Qed.
+
+(* the scanner finds only the first fault, and finds it unless it returned at a stray end tag *)
+Theorem C08_scan_fault_first : forall evs d x, scan d evs = SFault x -> first_fault evs = Some x.
+Proof. exact scan_fault_first. Qed.
+
+Theorem C08_scan_first_fault : forall evs d,
+  no_stray_end d evs = true ->
+  scan d evs = match first_fault evs with Some x => SFault x | None => SEof end.
+Proof. exact scan_first_fault. Qed.
+
+Theorem C08_no_stray_end_strict : forall evs d,
+  no_stray_end_strict d evs = true -> no_stray_end d evs = true.
+Proof. exact no_stray_end_of_strict. Qed.
+
+(* ---------- shared with C06: a document without elements changes nothing ---------- *)
+Theorem C08_extend_elementless : forall root evs,
+  has_element evs = false -> first_fault evs = None ->
+  extend_struct_ev root evs = Ok (with_pos wrapper root).
+Proof. exact extend_elementless. Qed.
+
+(* ---------- non-vacuity, and necessity of the end-tag hypothesis ---------- *)
+Example C08_example_ok :
+  no_stray_end 0 ex_good = true /\ first_fault ex_good = None /\ has_element ex_good = true
+  /\ exists e, into_struct_ev ex_good = Ok e /\ ename e = s "a"%string.
+Proof. exact ex_parse_ok. Qed.
+
+Example C08_example_fault :
+  no_stray_end 0 ex_attr_fault = true /\ first_fault ex_attr_fault = Some (AttrError 7)
+  /\ into_struct_ev ex_attr_fault = Err (AttrError 7)
+  /\ extend_struct_ev wrapper ex_attr_fault = Err (AttrError 7).
+Proof. exact ex_parse_fault. Qed.
+
+Example C08_example_position :
+  no_stray_end 0 ex_syntax_fault = true
+  /\ first_fault ex_syntax_fault = Some (QuickXmlError 17 3)
+  /\ into_struct_ev ex_syntax_fault = Err (QuickXmlError 17 3).
+Proof. exact ex_parse_position. Qed.
+
+Example C08_example_no_root :
+  first_fault ex_elementless = None /\ has_element ex_elementless = false
+  /\ into_struct_ev ex_elementless = Err NoRootError.
+Proof. exact ex_parse_no_root. Qed.
+
+Example C08_example_run :
+  expected_verdict true [ex_good; ex_elementless; ex_good] = None
+  /\ (exists e, run_evs [ex_good; ex_elementless; ex_good] = Ok e)
+  /\ expected_verdict true [ex_good; ex_attr_fault; ex_syntax_fault] = Some (AttrError 7)
+  /\ run_evs [ex_good; ex_attr_fault; ex_syntax_fault] = Err (AttrError 7)
+  /\ expected_verdict true [ex_elementless; ex_good] = Some NoRootError
+  /\ run_evs [ex_elementless; ex_good] = Err NoRootError.
+Proof. exact ex_run_verdict. Qed.
+
+Example C08_example_stray_end_needed :
+  no_stray_end 0 ex_stray = false /\ first_fault ex_stray = Some (QuickXmlError 9 1)
+  /\ scan 0 ex_stray = SReturn [EErr 9 1]
+  /\ exists e, into_struct_ev ex_stray = Ok e.
+Proof. exact ex_stray_end_needed. Qed.
+
+Print Assumptions C08_parse_fault.
+Print Assumptions C08_parse_ok.
+Print Assumptions C08_parse_no_root.
+Print Assumptions C08_parse_err_iff.
+Print Assumptions C08_extend_fault.
+Print Assumptions C08_extend_ok.
+Print Assumptions C08_extend_err_iff.
+Print Assumptions C08_position.
+Print Assumptions C08_extend_position.
+Print Assumptions C08_quick_origin.
+Print Assumptions C08_run.
+Print Assumptions C08_scan_build.
+Print Assumptions C08_scan_parse_iff.
+Print Assumptions C08_scan_extend_iff.
+Print Assumptions C08_scan_fault_first.
+Print Assumptions C08_scan_first_fault.
+Print Assumptions C08_no_stray_end_strict.
+Print Assumptions C08_extend_elementless.
+Print Assumptions C08_example_ok.
+Print Assumptions C08_example_fault.
+Print Assumptions C08_example_position.
+Print Assumptions C08_example_no_root.
+Print Assumptions C08_example_run.
+Print Assumptions C08_example_stray_end_needed.
